@@ -29,7 +29,7 @@ var c17KeyLens = []int{0, 1, 2, 3, 4, 5, 8, 8, 8, 16, 255, 256, 65534, 65535, 65
 func drawProgram(ch core.Chooser) []dstep {
 	n := ch.Int("steps", 1, core.Scale(40, 120))
 	var steps []dstep
-	kinds := []string{"put", "put", "put", "put", "get", "has", "del", "del", "compact", "reopen", "crash", "count", "items", "sync"}
+	kinds := []string{"put", "put", "put", "put", "get", "has", "del", "del", "compact", "reopen", "crash", "count", "items", "sync", "iternew", "iternext", "iternext"}
 	for i := 0; i < n; i++ {
 		s := dstep{kind: kinds[ch.Int("kind", 0, len(kinds)-1)]}
 		kl := core.PickInt(ch, "klen", c17KeyLens)
@@ -58,7 +58,13 @@ func runProgram(env *Env, cfg dbx.Config, steps []dstep) (results []string, segs
 	}()
 	rec := func(f string, a ...interface{}) { results = append(results, fmt.Sprintf(f, a...)) }
 	model := map[string]string{}
+	// a long-lived iterator that is advanced a few pairs at a time between the other operations
+	// (its queued items may refer to segments that compaction removes in between)
+	var iter *pogreb.ItemIterator
 	for i, s := range steps {
+		if s.kind == "reopen" || s.kind == "crash" {
+			iter = nil
+		}
 		e := core.Safe(func() error {
 			switch s.kind {
 			case "put":
@@ -117,6 +123,24 @@ func runProgram(env *Env, cfg dbx.Config, steps []dstep) (results []string, segs
 				rec("%d items %d", i, len(got))
 				if !dbx.Equal(got, model) {
 					return fmt.Errorf("Items: %s", dbx.Diff(got, model))
+				}
+			case "iternew":
+				iter = db.Items()
+				rec("%d iternew", i)
+			case "iternext":
+				if iter == nil {
+					iter = db.Items()
+				}
+				for j, n := 0, 1+s.vlen%5; j < n; j++ {
+					k, v, err := iter.Next()
+					if err == pogreb.ErrIterationDone {
+						rec("%d iternext done", i)
+						break
+					}
+					rec("%d iternext klen=%d ksum=%x vlen=%d vsum=%x err=%v", i, len(k), sum(k), len(v), sum(v), err != nil)
+					if err != nil {
+						return fmt.Errorf("ItemIterator.Next failed: %v", err)
+					}
 				}
 			case "reopen":
 				if err := db.Close(); err != nil {
